@@ -1,7 +1,7 @@
 (* C15, stage 4b: constant values -- ConstValue::parse with its eight alternatives (literal, true, false, path, double,
    integer, [list], {map}), lists and maps nested to any depth, optional separators between the elements. *)
 From PVIdl Require Import Comb Ast Parser Print Proofs.Total Proofs.RoundTok Proofs.RoundPath Proofs.RoundAnn Proofs.RoundTy
-  Proofs.RoundKit Proofs.RoundNum.
+  Proofs.RoundKit Proofs.Lex Proofs.RoundNum.
 From Coq Require Import ZifyN ZifyNat ZifyBool.
 From Coq Require String.
 Import String.StringSyntax.
@@ -43,6 +43,67 @@ Ltac sfx_step ::=
   first [ apply sfx_refl | apply sfx_app_r | apply sfx_cons_r | apply sfx_blank | apply sfx_type | apply sfx_ty
         | apply sfx_ocpp | apply sfx_path_tail | apply sfx_path | apply sfx_lit | apply sfx_sep | apply sfx_anns | apply sfx_oanns
         | apply sfx_const | apply sfx_clist | apply sfx_cmapl | apply sfx_int | apply sfx_dbl ].
+
+(* ---------- printers concatenate: pr c k = pr c [] ++ k ---------- *)
+Lemma pr_atom_app a k : pr_atom a k = pr_atom a [] ++ k.
+Proof.
+  destruct a; cbn [pr_atom].
+  - now rewrite app_nil_r.
+  - rewrite app_nil_r. now rewrite <- app_assoc.
+  - rewrite app_nil_r. now rewrite <- app_assoc.
+  - rewrite app_nil_r. rewrite <- !app_assoc. reflexivity.
+Qed.
+Lemma pr_blank_app bl k : pr_blank bl k = pr_blank bl [] ++ k.
+Proof. induction bl as [|a bl IH]; cbn [pr_blank]; [reflexivity|]. rewrite (pr_atom_app a (pr_blank bl [])), (pr_atom_app a (pr_blank bl k)), IH. now rewrite app_assoc. Qed.
+Lemma pr_sep_app s k : pr_sep s k = pr_sep s [] ++ k.
+Proof. destruct s as [|semi bl]; cbn [pr_sep]; [reflexivity|]. now rewrite (pr_blank_app bl k). Qed.
+Lemma pr_lit_app l k : pr_lit l k = pr_lit l [] ++ k.
+Proof. unfold pr_lit. cbn [app]. now rewrite <- app_assoc. Qed.
+Lemma pr_path_tail_app t k : pr_path_tail t k = pr_path_tail t [] ++ k.
+Proof.
+  induction t as [|[[b1 b2] s0] t IH]; cbn [pr_path_tail]; [reflexivity|].
+  rewrite (pr_blank_app b1 (txt "." ++ pr_blank b2 (s0 ++ pr_path_tail t k))), (pr_blank_app b1 (txt "." ++ pr_blank b2 (s0 ++ pr_path_tail t []))).
+  rewrite (pr_blank_app b2 (s0 ++ pr_path_tail t k)), (pr_blank_app b2 (s0 ++ pr_path_tail t [])), IH.
+  repeat rewrite <- app_assoc. cbn [app]. repeat rewrite <- app_assoc. reflexivity.
+Qed.
+Lemma pr_path_app p k : pr_path p k = pr_path p [] ++ k.
+Proof. unfold pr_path. rewrite (pr_path_tail_app (cp_tail p) k). now rewrite app_assoc. Qed.
+
+Fixpoint pr_const_app (v : cconst) : forall k, pr_const v k = pr_const v [] ++ k
+with pr_clist_app (l : clist) : forall k, pr_clist l k = pr_clist l [] ++ k
+with pr_cmapl_app (l : cmapl) : forall k, pr_cmapl l k = pr_cmapl l [] ++ k.
+Proof.
+  - destruct v; cbn [pr_const]; intros k.
+    + apply pr_lit_app.
+    + now rewrite app_nil_r.
+    + apply pr_path_app.
+    + apply pr_dbl_app.
+    + apply pr_int_app.
+    + rewrite (pr_clist_app els (txt "]" ++ k)), (pr_clist_app els (txt "]" ++ [])).
+      rewrite (pr_blank_app b0 (pr_clist els [] ++ txt "]" ++ k)), (pr_blank_app b0 (pr_clist els [] ++ txt "]" ++ [])).
+      repeat rewrite <- app_assoc. cbn [app]. repeat rewrite <- app_assoc. reflexivity.
+    + rewrite (pr_cmapl_app els (txt "}" ++ k)), (pr_cmapl_app els (txt "}" ++ [])).
+      rewrite (pr_blank_app b0 (pr_cmapl els [] ++ txt "}" ++ k)), (pr_blank_app b0 (pr_cmapl els [] ++ txt "}" ++ [])).
+      repeat rewrite <- app_assoc. cbn [app]. repeat rewrite <- app_assoc. reflexivity.
+  - destruct l as [|v b s rest]; cbn [pr_clist]; intros k; [reflexivity|].
+    rewrite (pr_clist_app rest k).
+    rewrite (pr_sep_app s (pr_clist rest [] ++ k)), (pr_sep_app s (pr_clist rest [])).
+    rewrite (pr_blank_app b (pr_sep s [] ++ pr_clist rest [] ++ k)), (pr_blank_app b (pr_sep s [] ++ pr_clist rest [])).
+    rewrite (pr_const_app v (pr_blank b [] ++ pr_sep s [] ++ pr_clist rest [] ++ k)), (pr_const_app v (pr_blank b [] ++ pr_sep s [] ++ pr_clist rest [])).
+    repeat rewrite <- app_assoc. reflexivity.
+  - destruct l as [|key b1 b2 v b3 s rest]; cbn [pr_cmapl]; intros k; [reflexivity|].
+    rewrite (pr_cmapl_app rest k).
+    rewrite (pr_sep_app s (pr_cmapl rest [] ++ k)), (pr_sep_app s (pr_cmapl rest [])).
+    rewrite (pr_blank_app b3 (pr_sep s [] ++ pr_cmapl rest [] ++ k)), (pr_blank_app b3 (pr_sep s [] ++ pr_cmapl rest [])).
+    rewrite (pr_const_app v (pr_blank b3 [] ++ pr_sep s [] ++ pr_cmapl rest [] ++ k)), (pr_const_app v (pr_blank b3 [] ++ pr_sep s [] ++ pr_cmapl rest [])).
+    rewrite (pr_blank_app b2 (pr_const v [] ++ pr_blank b3 [] ++ pr_sep s [] ++ pr_cmapl rest [] ++ k)),
+            (pr_blank_app b2 (pr_const v [] ++ pr_blank b3 [] ++ pr_sep s [] ++ pr_cmapl rest [])).
+    rewrite (pr_blank_app b1 (txt ":" ++ pr_blank b2 [] ++ pr_const v [] ++ pr_blank b3 [] ++ pr_sep s [] ++ pr_cmapl rest [] ++ k)),
+            (pr_blank_app b1 (txt ":" ++ pr_blank b2 [] ++ pr_const v [] ++ pr_blank b3 [] ++ pr_sep s [] ++ pr_cmapl rest [])).
+    rewrite (pr_const_app key (pr_blank b1 [] ++ txt ":" ++ pr_blank b2 [] ++ pr_const v [] ++ pr_blank b3 [] ++ pr_sep s [] ++ pr_cmapl rest [] ++ k)),
+            (pr_const_app key (pr_blank b1 [] ++ txt ":" ++ pr_blank b2 [] ++ pr_const v [] ++ pr_blank b3 [] ++ pr_sep s [] ++ pr_cmapl rest [])).
+    repeat rewrite <- app_assoc. cbn [app]. repeat rewrite <- app_assoc. reflexivity.
+Qed.
 
 (* ---------- first bytes of printed constants ---------- *)
 (* the bytes a constant value can begin with *)
@@ -150,18 +211,6 @@ Proof.
   intros E. apply wstop_nodot. auto.
 Qed.
 
-(* the follow condition of the i-th element of a list, from the glue condition *)
-Lemma glue_follow v b s R : wf_blank b = true -> nb R = true ->
-  (s = SepNone -> const_ends_word v = true -> b = [] -> wstop R = true) ->
-  (s = SepNone -> const_is_path v = true -> nodot R = true) ->
-  cvfollow (const_ends_word v) (const_is_path v) (pr_blank b (pr_sep s R)).
-Proof.
-  intros Hb Hn H1 H2 He. exists false, b, (pr_sep s R). split; [reflexivity|]. split; [exact Hb|]. split; [discriminate|].
-  split; [now apply sep_nb|]. split.
-  - intros E. destruct s as [|[|] bl]; cbn [pr_sep sep_byte]; try reflexivity. auto.
-  - intros E. destruct s as [|[|] bl]; cbn [pr_sep sep_byte]; try reflexivity. auto.
-Qed.
-
 (* ---------- the alternatives of ConstValue::parse, named ---------- *)
 Definition cv_str (lf : nat) : parser ConstValue := pmap CString (p_literal lf).
 Definition cv_true : parser ConstValue := fun i => do i, _ <- p_keyword kw_true i ;; POk i (CBool true).
@@ -253,6 +302,20 @@ Proof.
   now apply nexp_err.
 Qed.
 
+(* the same with the exact condition: no digit, no '.', no exponent follows *)
+Lemma dbl_alts_err_digits_x ds k : ds <> [] -> is_digits ds = true -> hd_is is_digit k = false ->
+  hd_is (fun b => Byte.eqb b x2e) k = false -> exp_starts k = false -> length k < lf -> is_perr (alt (dbl_alts lf) (ds ++ k)).
+Proof.
+  intros Hne Hd Hnd0 Hdot He Hf. pose proof (hd_is_sat _ k Hnd0) as Hnd.
+  assert (Hp : is_perr (tag [x2e] k)).
+  { destruct k as [|b k]; [exact I|]. apply tag_hd_ne. exact Hdot. }
+  unfold dbl_alts.
+  rewrite alt_err by (unfold dbl_a; rewrite (digit1_ok ds k Hne Hd Hnd); cbn [pbind]; apply pbind_err; exact Hp).
+  rewrite alt_err by (unfold dbl_b; rewrite (opt_ok digit1 _ _ _ (digit1_ok ds k Hne Hd Hnd)); cbn [pbind]; apply pbind_err; exact Hp).
+  apply alt_last_err. unfold dbl_c. rewrite (digit1_ok ds k Hne Hd Hnd). cbn [pbind].
+  exact (exp_starts_err lf sym_dbl_exp_c k eq_refl He Hf).
+Qed.
+
 Lemma dbl_inner_err k : is_perr (alt (dbl_alts lf) k) -> hd_sat (fun b => negb (bmem b [x2d; x2b])) k = true ->
   is_perr (dbl_inner lf k).
 Proof.
@@ -269,33 +332,39 @@ Lemma dbl_err_of_inner k : is_perr (dbl_inner lf k) -> is_perr (p_double_constan
 Proof. intros H. rewrite p_dbl_eq. now apply map_res_err, recognize_err. Qed.
 
 (* an integer constant is not read as a double *)
+(* [-] digits are not a double unless a '.' or an exponent follows; 0x.. and two or more '-' never are *)
 Lemma int_digits_not_dbl (hex : bool) ds k : ds <> [] -> forallb (if hex then is_hexdigit else is_digit) ds = true ->
-  nid k = true -> nodot k = true -> is_perr (alt (dbl_alts lf) ((if hex then txt "0x" else []) ++ ds ++ k)).
+  (hex = false -> hd_is is_digit k = false /\ hd_is (fun b => Byte.eqb b x2e) k = false /\ exp_starts k = false /\ length k < lf) ->
+  is_perr (alt (dbl_alts lf) ((if hex then txt "0x" else []) ++ ds ++ k)).
 Proof.
-  intros Hne Hd Hk Hdot. destruct hex; cbn [app].
+  intros Hne Hd Hk. destruct hex; cbn [app].
   - change (txt "0x" ++ ds ++ k) with ([x30] ++ x78 :: ds ++ k). apply dbl_alts_err_digits; try reflexivity. discriminate.
-  - apply dbl_alts_err_digits; auto using nid_nodigit, nid_nexp.
+  - destruct (Hk eq_refl) as [H1 [H2 [H3 H4]]]. now apply dbl_alts_err_digits_x.
 Qed.
 
-Lemma int_not_dbl i k : wf_int i = true -> nid k = true -> nodot k = true -> is_perr (p_double_constant lf (pr_int i k)).
+Lemma int_not_dbl i k : wf_int i = true -> int_stops i k = true -> int_not_double i k = true -> length k < lf ->
+  is_perr (p_double_constant lf (pr_int i k)).
 Proof.
-  intros Hw Hk Hdot. apply dbl_err_of_inner. destruct i as [n hex ds]. unfold wf_int, pr_int in *.
+  intros Hw Hst Hnd Hlen. apply dbl_err_of_inner. destruct i as [n hex ds]. unfold wf_int, pr_int, int_stops, int_not_double in *.
   cbn [ci_minus ci_hex ci_digits] in *. bsplit Hw.
   assert (Hne : ds <> []) by (intros ->; discriminate Hw).
   assert (Wd : forallb (if hex then is_hexdigit else is_digit) ds = true) by assumption.
-  pose proof (int_digits_not_dbl hex ds k Hne Wd Hk Hdot) as Hb.
+  assert (Hb : n < 2 -> is_perr (alt (dbl_alts lf) ((if hex then txt "0x" else []) ++ ds ++ k))).
+  { intros Hn. apply int_digits_not_dbl; auto. intros ->. cbn [orb] in Hnd.
+    replace (Nat.leb 2 n) with false in Hnd by (symmetry; apply Nat.leb_gt; exact Hn). cbn [orb] in Hnd.
+    apply negb_true_iff, orb_false_elim in Hnd. apply andb_prop in Hst. destruct Hst as [Hst _]. apply negb_true_iff in Hst. tauto. }
   set (rest := (if hex then txt "0x" else []) ++ ds ++ k) in *.
   assert (Hrest : hd_sat (fun b => negb (bmem b [x2d; x2b])) rest = true).
   { subst rest. destruct hex; [reflexivity|]. destruct ds as [|d ds]; [contradiction|]. cbn [app hd_sat forallb] in *.
     apply andb_prop in Wd. destruct Wd as [Wd _]. revert Wd. clear. destruct d; vm_compute; intro H; try reflexivity; discriminate H. }
   destruct n as [|n]; cbn [minus_run].
-  - now apply dbl_inner_err.
+  - apply dbl_inner_err; [apply Hb; lia|exact Hrest].
   - unfold dbl_inner. change sym_dbl_minus with [x2d]. change (x2d :: minus_run n rest) with ([x2d] ++ minus_run n rest).
     rewrite (opt_ok (tag [x2d]) _ _ _ (tag_ok [x2d] _)). cbn [pbind].
     assert (H2 : is_perr (tag sym_dbl_plus (minus_run n rest))).
     { destruct n; cbn [minus_run]; [|exact I]. destruct rest as [|b r]; [exact I|]. apply tag_hd_ne. cbn in Hrest. cbn [bmem] in Hrest.
       destruct (Byte.eqb b x2b); [|reflexivity]. rewrite orb_true_r in Hrest. discriminate. }
-    rewrite (opt_err _ _ H2). cbn [pbind]. destruct n as [|n]; cbn [minus_run]; [exact Hb|].
+    rewrite (opt_err _ _ H2). cbn [pbind]. destruct n as [|n]; cbn [minus_run]; [apply Hb; lia|].
     apply dbl_alts_err_head. reflexivity.
 Qed.
 
@@ -413,18 +482,6 @@ Proof.
   bsplit Hw. now apply const_nodot.
 Qed.
 
-(* the glue condition gives the follow condition of an element *)
-Lemma glue_cvfollow v b s nw nd R : wf_blank b = true -> nb R = true -> glue_ok v b s nw nd = true ->
-  (nw = false -> nd = false -> wstop R = true) -> (nd = false -> nodot R = true) ->
-  cvfollow (const_ends_word v) (const_is_path v) (pr_blank b (pr_sep s R)).
-Proof.
-  intros Hb Hn Hg H1 H2. apply glue_follow; auto.
-  - intros -> He ->. cbn [glue_ok is_nil] in Hg. rewrite He in Hg. cbn [andb] in Hg. apply andb_prop in Hg. destruct Hg as [Hg _].
-    apply negb_true_iff, orb_false_elim in Hg. destruct Hg. auto.
-  - intros -> Hp. cbn [glue_ok] in Hg. rewrite Hp in Hg. apply andb_prop in Hg. destruct Hg as [_ Hg]. cbn [andb] in Hg.
-    apply negb_true_iff in Hg. auto.
-Qed.
-
 Lemma len_const v k : wf_const v = true -> length k < length (pr_const v k).
 Proof.
   intros Hw. destruct v as [l|b|p|d|i|b0 els|b0 els]; cbn [pr_const wf_const] in *.
@@ -453,22 +510,126 @@ Variable whole : list byte.
 Hypothesis Hlf : length whole < lf.
 
 (* a path constant: what follows is not read as a continuation of the path *)
-Lemma cvfollow_pfollow k : cvfollow true true k -> sfx k whole -> pfollow lf k.
+Lemma cvfollow_nosep k : cvfollow true true k -> sfx k whole -> is_perr (p_path_sep lf k).
 Proof.
-  intros H S. split; [eapply cvfollow_nid; eauto|]. destruct (H eq_refl) as [eof [bl [k' [-> [Hw [He [Hn [H1 H2]]]]]]]].
+  intros H S. destruct (H eq_refl) as [eof [bl [k' [-> [Hw [He [Hn [H1 H2]]]]]]]].
   unfold p_path_sep. destruct (oblank_e lf whole Hlf eof bl k' Hw He Hn S) as [o ->]. cbn [pbind]. apply pbind_err.
   apply dot_err. auto.
 Qed.
 
+(* ---------- what follows a value, exactly ----------
+   Nothing is asked after a literal, a list or a map.  After a word or a number: the text does not continue it
+   ([cont_ok], Print.v), it begins with an ASCII byte (every token of the grammar does), and after a path it is not a
+   path separator followed by an identifier. *)
+Definition hd_ascii (k : list byte) : bool := hd_sat (fun b => N.ltb (bn b) 128) k.
+Definition cfollow (v : cconst) (k : list byte) : Prop :=
+  const_ends_word v = true -> cont_ok v k = true /\ hd_ascii k = true /\ (const_is_path v = true -> sepfollow lf k).
+
+Lemma bs_endc b : blank_start b = true -> endc b = true.
+Proof. destruct b; vm_compute; intro H; try reflexivity; discriminate H. Qed.
+Lemma bs_ascii b : blank_start b = true -> N.ltb (bn b) 128 = true.
+Proof. destruct b; vm_compute; intro H; try reflexivity; discriminate H. Qed.
+Lemma wstopc_ascii b : wstopc b = true -> N.ltb (bn b) 128 = true.
+Proof. unfold wstopc. intros H. bsplit H. exact H. Qed.
+
+(* the structural follow condition (a blank, or a byte that ends every word and number) is a special case *)
+Lemma cvfollow_cfollow v k : cvfollow (const_ends_word v) (const_is_path v) k -> sfx k whole -> cfollow v k.
+Proof.
+  intros H S He. rewrite He in H. destruct (H eq_refl) as [eof [bl [k' [E [Hw [Hf [Hn [H1 H2]]]]]]]].
+  split; [|split].
+  - apply cont_ok_end. subst k. unfold endk. eapply blank_then_e; eauto using bs_endc. intros Eb.
+    apply wstop_endk. auto.
+  - subst k. unfold hd_ascii. eapply blank_then_e; eauto using bs_ascii. intros Eb.
+    generalize (H1 Eb). apply hd_sat_imp. exact wstopc_ascii.
+  - intros Hp. rewrite Hp in H. left. now apply cvfollow_nosep.
+Qed.
+
+Lemma cfollow_wordend v k : cfollow v k -> const_ends_word v = true -> (forall kk, cont_ok v kk = negb (hd_is wordch kk)) -> wordend k = true.
+Proof.
+  intros H He Hc. destruct (H He) as [H1 [H2 _]]. rewrite Hc in H1. apply negb_true_iff in H1.
+  destruct k as [|b k]; [reflexivity|]. cbn in *. unfold wordch in H1. unfold identch. now rewrite H2, H1.
+Qed.
+Lemma cfollow_nid v k : cfollow v k -> const_ends_word v = true -> (forall kk, cont_ok v kk = negb (hd_is wordch kk)) -> nid k = true.
+Proof. intros H He Hc. apply wordend_identch. eapply cfollow_wordend; eauto. Qed.
+
+(* a value whose text begins with '.' continues with a digit *)
+Lemma const_dot_digit v k : wf_const v = true -> nodot (pr_const v k) = true \/ exists d r, pr_const v k = x2e :: d :: r /\ is_digit d = true.
+Proof.
+  intros Hw. destruct (const_starts_dot v) eqn:E; [|left; now apply const_nodot].
+  right. destruct v as [l|b|p|dd|i|b0 els|b0 els]; cbn [const_starts_dot] in E; try discriminate.
+  destruct dd as [[|] [|] body]; cbn in E; try discriminate. destruct body as [ip fp ex|fp ex|ip ex]; try discriminate.
+  cbn [wf_const] in Hw. unfold wf_dbl in Hw. cbn [cd_body wf_dbody] in Hw. bsplit Hw.
+  destruct fp as [|d fp]; [discriminate|]. cbn [is_digits forallb] in W0. apply andb_prop in W0. destruct W0 as [Hd _].
+  exists d, (fp ++ pr_oexp ex k). split; [reflexivity|exact Hd].
+Qed.
+
+(* a blank and then either no '.', or a '.' and a digit: not a path separator followed by an identifier *)
+Lemma sepfollow_head b Y : wf_blank b = true -> nb Y = true ->
+  (nodot Y = true \/ exists d r, Y = x2e :: d :: r /\ is_digit d = true) -> sfx (pr_blank b Y) whole ->
+  sepfollow lf (pr_blank b Y).
+Proof.
+  intros Hb Hn HY S. unfold sepfollow, p_path_sep. destruct (oblank lf whole Hlf b Y Hb Hn S) as [o ->]. cbn [pbind].
+  destruct HY as [HY|[d [r [-> Hd]]]].
+  - left. apply pbind_err, dot_err, HY.
+  - right. change sym_path_dot with [x2e]. change (x2e :: d :: r) with ([x2e] ++ d :: r). rewrite tag_ok. cbn [pbind].
+    assert (Hnb : nb (d :: r) = true).
+    { cbn. destruct (blank_start d) eqn:Eb; [|reflexivity]. pose proof (blank_start_not_identch d Eb) as Hi.
+      rewrite (digit_identch d Hd) in Hi. discriminate. }
+    rewrite (opt_err (p_blank lf)) by (apply blank_err, Hnb). cbn [pbind].
+    exists (d :: r), tt. split; [reflexivity|]. split.
+    + apply same_len_shorter. pose proof (len_blank b ([x2e] ++ d :: r)) as L. cbn [app length] in *. lia.
+    + apply ident_err. cbn. destruct d; vm_compute in Hd |- *; congruence.
+Qed.
+
+Lemma sep_byte_endc semi : endc (sep_byte semi) = true.
+Proof. destruct semi; reflexivity. Qed.
+
+(* the follow condition of an element of a list / a map, from the glue condition.  R = nxt ++ X is the text of the
+   following elements (nxt) and of what follows the list (X, which begins with the closing bracket) *)
+Lemma glue_cfollow v b s nxt X : wf_blank b = true -> wf_sep s = true -> nb (nxt ++ X) = true -> lstopk X = true ->
+  glue_ok v b s nxt = true -> hd_ascii (nxt ++ X) = true ->
+  (nodot (nxt ++ X) = true \/ exists d r, nxt ++ X = x2e :: d :: r /\ is_digit d = true) ->
+  sfx (pr_blank b (pr_sep s (nxt ++ X))) whole ->
+  cfollow v (pr_blank b (pr_sep s (nxt ++ X))).
+Proof.
+  intros Hb Hs Hn HX Hg Ha Hd S He.
+  assert (Hend : (s <> SepNone \/ b <> []) -> endk (pr_blank b (pr_sep s (nxt ++ X))) = true).
+  { intros Hc. unfold endk. apply blank_then; auto using bs_endc. intros ->. destruct s as [|semi bl]; [destruct Hc; contradiction|].
+    cbn [pr_sep hd_sat]. apply sep_byte_endc. }
+  split; [|split].
+  - destruct s as [|semi bl]; [destruct b as [|a b]|].
+    + cbn [pr_blank pr_sep glue_ok] in *. now rewrite (cont_ok_local v nxt X HX).
+    + apply cont_ok_end, Hend. right. discriminate.
+    + apply cont_ok_end, Hend. left. discriminate.
+  - unfold hd_ascii. apply blank_then; auto using bs_ascii. intros _. destruct s as [|[|] bl]; cbn [pr_sep sep_byte hd_sat]; auto.
+  - intros _. destruct s as [|semi bl].
+    + cbn [pr_sep] in *. now apply sepfollow_head.
+    + apply sepfollow_head; auto; [destruct semi; reflexivity|left; destruct semi; reflexivity].
+Qed.
+
+Lemma cvstart_ascii b : cvstart b = true -> N.ltb (bn b) 128 = true.
+Proof. destruct b; vm_compute; intro H; try reflexivity; discriminate H. Qed.
+
+Lemma clist_ascii l c k : wf_clist l = true -> N.ltb (bn c) 128 = true -> hd_ascii (pr_clist l (c :: k)) = true.
+Proof. destruct l as [|v b s rest]; cbn [pr_clist wf_clist]; intros H Hc; [exact Hc|]. bsplit H. apply const_head; auto using cvstart_ascii. Qed.
+Lemma cmapl_ascii l c k : wf_cmapl l = true -> N.ltb (bn c) 128 = true -> hd_ascii (pr_cmapl l (c :: k)) = true.
+Proof. destruct l as [|key b1 b2 v b3 s rest]; cbn [pr_cmapl wf_cmapl]; intros H Hc; [exact Hc|]. bsplit H. apply const_head; auto using cvstart_ascii. Qed.
+Lemma clist_dot l c k : wf_clist l = true -> negb (Byte.eqb c x2e) = true ->
+  nodot (pr_clist l (c :: k)) = true \/ exists d r, pr_clist l (c :: k) = x2e :: d :: r /\ is_digit d = true.
+Proof. destruct l as [|v b s rest]; cbn [pr_clist wf_clist]; intros H Hc; [left; exact Hc|]. bsplit H. now apply const_dot_digit. Qed.
+Lemma cmapl_dot l c k : wf_cmapl l = true -> negb (Byte.eqb c x2e) = true ->
+  nodot (pr_cmapl l (c :: k)) = true \/ exists d r, pr_cmapl l (c :: k) = x2e :: d :: r /\ is_digit d = true.
+Proof. destruct l as [|key b1 b2 v b3 s rest]; cbn [pr_cmapl wf_cmapl]; intros H Hc; [left; exact Hc|]. bsplit H. now apply const_dot_digit. Qed.
+
 Section Loops.
 Variable cv : parser ConstValue.
 Variable d : nat.
-Hypothesis Hcv : forall v k, cv_depth v < d -> wf_const v = true -> cvfollow (const_ends_word v) (const_is_path v) k ->
+Hypothesis Hcv : forall v k, cv_depth v < d -> wf_const v = true -> cfollow v k ->
   sfx (pr_const v k) whole -> cv (pr_const v k) = POk k (erase_const v).
 Hypothesis Hstop : forall c k, (c = x5d \/ c = x7d) -> is_perr (cv (c :: k)).
 
 Lemma cv_elem_ok v b0 b s R : cv_depth v < d -> wf_blank b0 = true -> wf_const v = true -> wf_blank b = true -> wf_sep s = true ->
-  nb R = true -> nosep R = true -> cvfollow (const_ends_word v) (const_is_path v) (pr_blank b (pr_sep s R)) ->
+  nb R = true -> nosep R = true -> cfollow v (pr_blank b (pr_sep s R)) ->
   sfx (pr_blank b0 (pr_const v (pr_blank b (pr_sep s R)))) whole ->
   cv_elem lf cv (pr_blank b0 (pr_const v (pr_blank b (pr_sep s R)))) = POk R (erase_const v).
 Proof.
@@ -494,10 +655,13 @@ Proof.
     remember (pr_clist rest (c :: k)) as R eqn:ER.
     assert (NR : nb R = true) by (subst R; apply clist_nb; [assumption|subst c; reflexivity]).
     assert (SR : nosep R = true) by (subst R; apply clist_nosep; [assumption|subst c; reflexivity]).
-    assert (F : cvfollow (const_ends_word v) (const_is_path v) (pr_blank b (pr_sep s R))).
-    { eapply glue_cvfollow; eauto.
-      - intros E1 E2. subst R. apply clist_wstop; auto. subst c. reflexivity.
-      - intros E2. subst R. apply clist_nodot; auto. subst c. reflexivity. }
+    assert (ERa : R = pr_clist rest [] ++ c :: k) by (subst R; apply pr_clist_app).
+    assert (F : cfollow v (pr_blank b (pr_sep s R))).
+    { rewrite ERa. apply glue_cfollow; try assumption; try rewrite <- ERa; try assumption.
+      - subst c. reflexivity.
+      - subst R. apply clist_ascii; [assumption|subst c; reflexivity].
+      - subst R. apply clist_dot; [assumption|subst c; reflexivity].
+      - sfx_of S. }
     assert (L : length R < length (pr_blank b0 (pr_const v (pr_blank b (pr_sep s R))))).
     { pose proof (len_blank b0 (pr_const v (pr_blank b (pr_sep s R)))) as L1.
       pose proof (len_const v (pr_blank b (pr_sep s R)) ltac:(assumption)) as L2.
@@ -512,16 +676,15 @@ Qed.
 
 Lemma cv_kv_ok key v b0 b1 b2 b3 s R : cv_depth key < d -> cv_depth v < d -> wf_blank b0 = true -> wf_const key = true ->
   wf_blank b1 = true -> wf_blank b2 = true -> wf_const v = true -> wf_blank b3 = true -> wf_sep s = true ->
-  nb R = true -> nosep R = true -> cvfollow (const_ends_word v) (const_is_path v) (pr_blank b3 (pr_sep s R)) ->
+  nb R = true -> nosep R = true -> cfollow v (pr_blank b3 (pr_sep s R)) ->
   sfx (pr_blank b0 (pr_const key (pr_blank b1 (txt ":" ++ pr_blank b2 (pr_const v (pr_blank b3 (pr_sep s R))))))) whole ->
   cv_kv lf cv (pr_blank b0 (pr_const key (pr_blank b1 (txt ":" ++ pr_blank b2 (pr_const v (pr_blank b3 (pr_sep s R)))))))
   = POk R (erase_const key, erase_const v).
 Proof.
   intros Hdk Hdv Hb0 Hk Hb1 Hb2 Hv Hb3 Hs Hn Hns Hf S. unfold cv_kv.
   obk lf whole Hlf S ltac:(now apply const_nb).
-  assert (Fk : cvfollow (const_ends_word key) (const_is_path key)
-                 (pr_blank b1 (txt ":" ++ pr_blank b2 (pr_const v (pr_blank b3 (pr_sep s R)))))).
-  { intros _. eexists false, b1, _. split; [reflexivity|]. repeat split; auto. discriminate. }
+  assert (Fk : cfollow key (pr_blank b1 (txt ":" ++ pr_blank b2 (pr_const v (pr_blank b3 (pr_sep s R)))))).
+  { apply cvfollow_cfollow; [|sfx_of S]. intros _. eexists false, b1, _. split; [reflexivity|]. repeat split; auto. discriminate. }
   rewrite (Hcv key _ Hdk Hk Fk) by (sfx_of S). cbn [pbind].
   obk lf whole Hlf S ltac:(reflexivity).
   tg sym_cmap_colon (txt ":").
@@ -547,10 +710,13 @@ Proof.
     remember (pr_cmapl rest (c :: k)) as R eqn:ER.
     assert (NR : nb R = true) by (subst R; apply cmapl_nb; [assumption|subst c; reflexivity]).
     assert (SR : nosep R = true) by (subst R; apply cmapl_nosep; [assumption|subst c; reflexivity]).
-    assert (F : cvfollow (const_ends_word v) (const_is_path v) (pr_blank b3 (pr_sep s R))).
-    { eapply glue_cvfollow; eauto.
-      - intros E1 E2. subst R. apply cmapl_wstop; auto. subst c. reflexivity.
-      - intros E2. subst R. apply cmapl_nodot; auto. subst c. reflexivity. }
+    assert (ERa : R = pr_cmapl rest [] ++ c :: k) by (subst R; apply pr_cmapl_app).
+    assert (F : cfollow v (pr_blank b3 (pr_sep s R))).
+    { rewrite ERa. apply glue_cfollow; try assumption; try rewrite <- ERa; try assumption.
+      - subst c. reflexivity.
+      - subst R. apply cmapl_ascii; [assumption|subst c; reflexivity].
+      - subst R. apply cmapl_dot; [assumption|subst c; reflexivity].
+      - sfx_of S. }
     assert (L : length R < length (pr_blank b0 (pr_const key (pr_blank b1 (txt ":" ++ pr_blank b2 (pr_const v (pr_blank b3 (pr_sep s R)))))))).
     { pose proof (len_blank b0 (pr_const key (pr_blank b1 (txt ":" ++ pr_blank b2 (pr_const v (pr_blank b3 (pr_sep s R))))))) as L1.
       pose proof (len_const key (pr_blank b1 (txt ":" ++ pr_blank b2 (pr_const v (pr_blank b3 (pr_sep s R))))) ltac:(assumption)) as L2.
@@ -570,24 +736,21 @@ Qed.
 
 End Loops.
 
-Lemma cvfollow_true isp k : cvfollow true isp k -> cvfollow true false k.
-Proof.
-  intros H _. destruct (H eq_refl) as [eof [bl [k' [E [Hw [He [Hn [H1 _]]]]]]]]. exists eof, bl, k'. repeat split; auto. discriminate.
-Qed.
-
 Theorem rt_const : forall d v k, cv_depth v < d -> wf_const v = true ->
-  cvfollow (const_ends_word v) (const_is_path v) k -> sfx (pr_const v k) whole ->
+  cfollow v k -> sfx (pr_const v k) whole ->
   p_const_value lf d (pr_const v k) = POk k (erase_const v).
 Proof.
   induction d as [|d IH]; intros v k Hd Hw Hf S; [lia|]. rewrite p_cv_eq.
   assert (Hstop : d <> 0 -> forall c k0, c = x5d \/ c = x7d -> is_perr (p_const_value lf d (c :: k0))).
   { intros Hd0 c k0 Hc. destruct d as [|d']; [contradiction|]. apply (cv_err_punct lf whole Hlf).
     destruct Hc as [-> | ->]; reflexivity. }
-  destruct v as [l|b|p|dd|i|b0 els|b0 els]; cbn [pr_const erase_const wf_const const_ends_word const_is_path cv_depth] in *.
+  assert (Lk : length k < lf).
+  { eapply sfx_lt; [exact Hlf|]. eapply sfx_trans; [|exact S]. apply sfx_const, sfx_refl. }
+  destruct v as [l|b|p|dd|i|b0 els|b0 els]; cbn [pr_const erase_const wf_const cv_depth] in *.
   - (* literal *)
-    apply alt_ok. unfold cv_str, pmap. rewrite (rt_literal lf l k Hw) by (eapply sfx_lt; eauto). reflexivity.
+    apply alt_ok. unfold cv_str, pmap. rewrite (rt_literal lf l k Hw) by (eapply sfx_lt; [exact Hlf|exact S]). reflexivity.
   - (* bool *)
-    pose proof (cvfollow_wordend _ _ Hf) as We.
+    pose proof (cfollow_wordend _ _ Hf eq_refl (fun kk => eq_refl)) as We.
     rewrite alt_err by (apply pmap_err, lit_err; destruct b; reflexivity).
     destruct b.
     + apply alt_ok. unfold cv_true. change kw_true with (txt "true"). now rewrite rt_keyword.
@@ -596,7 +759,7 @@ Proof.
   - (* path *)
     apply andb_prop in Hw. destruct Hw as [Hwp Hnk].
     pose proof Hwp as Hwp'. unfold wf_path in Hwp'. apply andb_prop in Hwp'. destruct Hwp' as [Hh Ht].
-    pose proof (cvfollow_nid _ _ Hf) as Hk1. pose proof (path_tail_head (cp_tail p) k Ht Hk1) as Hrest.
+    pose proof (cfollow_nid _ _ Hf eq_refl (fun kk => eq_refl)) as Hk1. pose proof (path_tail_head (cp_tail p) k Ht Hk1) as Hrest.
     apply negb_true_iff in Hnk. cbn [bytes_in] in Hnk. apply orb_false_elim in Hnk. destruct Hnk as [N1 N2].
     apply orb_false_elim in N2. destruct N2 as [N2 _].
     rewrite alt_err by (apply pmap_err, lit_err, path_head; auto; intros b Hb; now apply (stop_noquote [b]), idh_stop).
@@ -604,24 +767,25 @@ Proof.
     rewrite alt_err by (apply pbind_err; now apply keyword_not_ident).
     rewrite alt_err by (apply pbind_err; now apply keyword_not_ident).
     apply alt_ok. unfold cv_path, pmap. change (cp_head p ++ pr_path_tail (cp_tail p) k) with (pr_path p k).
-    rewrite (rt_path lf whole Hlf p k Hwp (cvfollow_pfollow k Hf ltac:(sfx_of S)) S). reflexivity.
+    destruct (Hf eq_refl) as [_ [_ Hsep]].
+    rewrite (rt_path lf whole Hlf p k Hwp (conj Hk1 (Hsep eq_refl)) S). reflexivity.
   - (* double *)
-    pose proof (cvfollow_nid _ _ Hf) as Hk1.
+    destruct (Hf eq_refl) as [Hk1 _]. cbn [cont_ok] in Hk1.
     assert (Hi : nidh (pr_dbl dd k) = true) by (apply dbl_head; auto; intros c; destruct c; vm_compute; intro H; try reflexivity; discriminate H).
     rewrite alt_err by (apply pmap_err, lit_err, dbl_head; auto; intros c; destruct c; vm_compute; intro H; try reflexivity; discriminate H).
     rewrite alt_err by (apply pbind_err, kw_err_nidh; [discriminate|reflexivity|exact Hi]).
     rewrite alt_err by (apply pbind_err, kw_err_nidh; [discriminate|reflexivity|exact Hi]).
     rewrite alt_err by (apply pmap_err, path_err, Hi).
-    apply alt_ok. unfold cv_dbl, pmap. rewrite (rt_dbl lf dd k Hw Hk1) by (eapply sfx_lt; eauto). reflexivity.
+    apply alt_ok. unfold cv_dbl, pmap. rewrite (rt_dbl lf dd k Hw Hk1) by (eapply sfx_lt; [exact Hlf|exact S]). reflexivity.
   - (* integer *)
-    pose proof (cvfollow_nid _ _ Hf) as Hk1. pose proof (cvfollow_nodot _ _ Hf) as Hk2.
+    destruct (Hf eq_refl) as [Hk0 _]. cbn [cont_ok] in Hk0. apply andb_prop in Hk0. destruct Hk0 as [Hk1 Hk2].
     assert (Hi : nidh (pr_int i k) = true) by (apply int_head; auto; intros c; destruct c; vm_compute; intro H; try reflexivity; discriminate H).
     rewrite alt_err by (apply pmap_err, lit_err, int_head; auto; intros c; destruct c; vm_compute; intro H; try reflexivity; discriminate H).
     rewrite alt_err by (apply pbind_err, kw_err_nidh; [discriminate|reflexivity|exact Hi]).
     rewrite alt_err by (apply pbind_err, kw_err_nidh; [discriminate|reflexivity|exact Hi]).
     rewrite alt_err by (apply pmap_err, path_err, Hi).
-    rewrite alt_err by (apply pmap_err; now apply int_not_dbl).
-    apply alt_ok. unfold cv_int, pmap. rewrite (rt_int lf i k Hw Hk1) by (eapply sfx_lt; eauto). reflexivity.
+    rewrite alt_err by (apply pmap_err; now apply (int_not_dbl lf whole Hlf)).
+    apply alt_ok. unfold cv_int, pmap. rewrite (rt_int lf i k Hw Hk1) by (eapply sfx_lt; [exact Hlf|exact S]). reflexivity.
   - (* list *)
     apply andb_prop in Hw. destruct Hw as [Hb0 Hels].
     destruct (six_err lf whole Hlf (txt "[" ++ pr_blank b0 (pr_clist els (txt "]" ++ k))) eq_refl) as [E1 [E2 [E3 [E4 [E5 E6]]]]].
